@@ -15,6 +15,7 @@ import (
 	"io"
 	"net/http"
 	"os"
+	"strconv"
 	"path/filepath"
 	"strings"
 	"testing"
@@ -106,6 +107,48 @@ func mutate(d func(int) int, b []byte) ([]byte, []string) {
 		}
 	}
 	return b, notes
+}
+
+// craftFooter rewrites the 16 hex digits of a gzip eStargz footer (they sit in the gzip header's extra field, which
+// no checksum covers) with hostile spellings of hostile numbers, or replaces the footer by a legacy stargz footer.
+func craftFooter(d func(int) int, b []byte) ([]byte, []string) {
+	i := bytes.LastIndex(b, []byte("STARGZ"))
+	if i < 16 || len(b) < estargz.FooterSize {
+		return b, nil
+	}
+	b = append([]byte(nil), b...)
+	real, _ := strconv.ParseInt(string(b[i-16:i]), 16, 64)
+	vals := []int64{real, 0, 1, real - 1, real + 1, int64(len(b)), int64(len(b)) - estargz.FooterSize, int64(len(b)) + 1, 1 << 58, 0xe8}
+	v := vals[d(len(vals))]
+	var s string
+	switch d(7) {
+	case 0:
+		s = fmt.Sprintf("-%015x", v)
+	case 1:
+		s = fmt.Sprintf("+%015x", v)
+	case 2:
+		s = fmt.Sprintf("%016X", v)
+	case 3:
+		s = "ffffffffffffffff"
+	case 4:
+		s = "7fffffffffffffff"
+	case 5:
+		s = fmt.Sprintf("%16x", v)
+	default:
+		s = fmt.Sprintf("%016x", v)
+	}
+	note := "footer-offset=" + s
+	if d(4) == 0 { // legacy stargz footer: the extra field holds the digits and the magic without a subfield header
+		var f bytes.Buffer
+		zw, _ := gzip.NewWriterLevel(&f, gzip.NoCompression)
+		zw.Extra = []byte(s + "STARGZ")
+		zw.Close()
+		b = append(b[:len(b)-estargz.FooterSize], f.Bytes()...)
+		note += ",legacy"
+	} else {
+		copy(b[i-16:i], s)
+	}
+	return b, []string{note}
 }
 
 // ---- adversarial TOC grammar -----------------------------------------------------
@@ -308,7 +351,16 @@ func run(t *testing.T, tape *simrt.Tape) *hx.Outcome {
 			}
 			served, tocDigest = built.Blob, built.TOCDigest
 			if campaign == "mutated-blob" {
-				served, notes = mutate(d, served)
+				if v == 0 && d(4) == 0 {
+					served, notes = craftFooter(d, served)
+					if d(2) == 0 {
+						var more []string
+						served, more = mutate(d, served)
+						notes = append(notes, more...)
+					}
+				} else {
+					served, notes = mutate(d, served)
+				}
 			}
 		}
 	case "adversarial-toc":
